@@ -1,2 +1,121 @@
-import Moclo.Model.Entity
-/-! placeholder for C09 (theorems follow) -/
+import Moclo.Proofs.Layout
+import Mathlib.Data.List.Infix
+/-!
+# C09 — the product records its provenance and is a complete GenBank record
+
+Model: `assemble` / `assembleCore` (`_generate_assembly`, `_annotate_assembly`), `addSource`
+(`add_as_source`).  **Partial**: the GenBank write/read round trip is Biopython I/O outside the model and is
+decided by the oracle on the implementation; the theorems cover id / name / comment, the tiling of the
+generated `source` features and the verbatim occurrence of each fragment in the plasmid it names.
+-/
+namespace Moclo.C09
+open Moclo
+
+/-- the product carries the requested id and name, and its comment names the vector and every supplied
+module (in argument order) -/
+theorem product_header {v : Ent} {mods : List Ent} {pid pname : Nat} {p : Product} {after : List Rec}
+    (h : assemble v mods pid pname = (.ok p, after)) :
+    p.pid = pid ∧ p.pname = pname ∧ p.rcd.rid = pid ∧ p.commentVector = v.rcd.rid ∧
+    p.commentModules = mods.map (·.rcd.rid) := by
+  obtain ⟨_, _, _, _, _, _, _, _, _, _, _, _, _, h1, h2, h3, h4, h5, _⟩ := assemble_ok h
+  exact ⟨h1, h2, h3, h4, h5⟩
+
+/-- every fragment record ends with its generated source feature `[0, length)` naming its plasmid -/
+theorem target_has_source (c : ClassSpec) (r : Rec) (m : Match) :
+    (c.targetOf r m).feats.getLast? = some (sourceFeature r.rid (c.targetOf r m).seq.length) := by
+  unfold ClassSpec.targetOf addSource
+  simp
+
+/-- **tiling**: concatenating fragment records `t₁ … t_k` puts the features of `t_j`, shifted by the total
+length of the fragments before it, into the product — in particular its generated source feature covers
+exactly `[o_j, o_j + |t_j|)` with `o_1 = 0`, `o_{j+1} = o_j + |t_j|`, and the last one ends at the length of the
+product: every nucleotide is covered by exactly one generated source feature -/
+theorem sources_tile (ts : List Rec) :
+    let prod := ts.foldl Rec.append ⟨0, [], [], []⟩
+    prod.seq = (ts.map (·.seq)).flatten ∧
+    prod.seq.length = (ts.map (·.seq.length)).sum ∧
+    prod.feats = ((ts.zip (offsets 0 ts)).map (fun p => p.1.feats.map (Feature.shift p.2))).flatten := by
+  refine ⟨by simpa using foldl_append_seq ts ⟨0, [], [], []⟩, ?_, by simpa using foldl_append_feats ts ⟨0, [], [], []⟩⟩
+  rw [foldl_append_seq]; simp [List.length_flatten, List.map_map, Function.comp_def]
+
+theorem offsets_spec (start : Nat) (ts : List Rec) :
+    (offsets start ts).length = ts.length ∧
+    ∀ j (hj : j < ts.length), (offsets start ts)[j]? = some (start + ((ts.take j).map (·.seq.length)).sum) := by
+  induction ts generalizing start with
+  | nil => exact ⟨rfl, fun j hj => by simp at hj⟩
+  | cons t ts ih =>
+    obtain ⟨h1, h2⟩ := ih (start + t.seq.length)
+    refine ⟨by simp [offsets, h1], ?_⟩
+    intro j hj
+    cases j with
+    | zero => simp [offsets]
+    | succ j =>
+      simp only [offsets, List.getElem?_cons_succ, List.take_succ_cons, List.map_cons, List.sum_cons]
+      rw [h2 j (by simpa using hj)]; congr 1; omega
+
+/-- the shifted source feature of fragment `j` covers `[o_j, o_j + |t_j|)` -/
+theorem shifted_source (rid len : Nat) (o : Nat) :
+    (sourceFeature rid len).shift o = { ftype := 0, qual := .src rid, parts := [⟨o, o + len, 0⟩], cites := [] } := by
+  simp [sourceFeature, Feature.shift, Part.shift]; omega
+
+/-- **verbatim**: the fragment retained from a plasmid occurs literally in a rotation of that plasmid -/
+theorem fragment_verbatim (c : ClassSpec) (w : Word) (m : Match) :
+    ∃ k : Int, targetWord c w m <:+: rotlI w k := by
+  refine ⟨(m.span 1).1, ?_⟩
+  unfold targetWord pySlice
+  cases c.kind
+  · exact (List.take_prefix _ _).isInfix.trans (List.drop_suffix _ _).isInfix
+  · exact (List.take_prefix _ _).isInfix.trans (List.drop_suffix _ _).isInfix
+
+/-- re-referencing the citations does not disturb the generated source features (they cite nothing) -/
+theorem reref_keeps_sources (pre : Rec) :
+    List.Forall₂ (fun f f' => f'.ftype = f.ftype ∧ f'.qual = f.qual ∧ f'.parts = f.parts ∧
+      (f.cites = [] → f'.cites = [])) pre.feats (rerefRec { pre with refs := [] }).feats :=
+  rerefFeatures_shape [] pre.feats
+
+/-- **the product is that concatenation**: its record is the re-referenced concatenation of the chain's
+fragment records followed by the vector's, so the three facts above apply to it -/
+theorem product_is_layout {v : Ent} {mods : List Ent} {pid pname : Nat} {p : Product} {after : List Rec}
+    (h : assemble v mods pid pname = (.ok p, after)) :
+    ∃ ts : List Rec, ts ≠ [] ∧
+      p.rcd = rerefRec { (ts.foldl Rec.append ⟨0, [], [], []⟩) with rid := pid, refs := [] } := by
+  unfold assemble at h
+  simp only [] at h
+  split at h
+  · cases h
+  · split at h
+    · cases h
+    · split at h
+      · cases h
+      · split at h
+        · cases h
+        · split at h
+          · cases h
+          · split at h
+            · rename_i dms dv _ _
+              simp only [Prod.mk.injEq] at h
+              obtain ⟨hcore, _⟩ := h
+              unfold assembleCore at hcore
+              simp only [] at hcore
+              split at hcore
+              · cases hcore
+              · rename_i acc hex
+                split at hcore
+                · cases hcore
+                · split at hcore
+                  · cases hcore
+                  · split at hcore
+                    · cases hcore
+                    · rename_i vt hvt
+                      simp only [Except.ok.injEq] at hcore
+                      subst hcore
+                      obtain ⟨ts, _, hacc⟩ := extractChain_eq_foldl hex
+                      refine ⟨ts ++ [vt], by simp, ?_⟩
+                      simp only [List.foldl_append, List.foldl_cons, List.foldl_nil, ← hacc]
+            · cases h
+
+/-! non-vacuity -/
+example : offsets 0 [⟨1, [⟨.A, false⟩, ⟨.C, false⟩], [], []⟩, ⟨2, [⟨.G, false⟩], [], []⟩, ⟨3, [], [], []⟩] = [0, 2, 3] := by
+  decide
+
+end Moclo.C09
